@@ -85,11 +85,44 @@ def ob_b(letter: int, alt: int, octave: int, upper: bool, style: int) -> bool:
     return True
 
 
+def ob_c(letter: int, alt: int, octave: int, alt2: int, low2: bool) -> bool:
+    """Histories: ONE importer and ONE exporter used for a pitch, then another, then the first again:
+    every answer equals the answer of a fresh codec (no state may leak between calls)."""
+    lo, hi = _bounds()
+    assume(0 <= letter < 7)
+    assume(-3 <= alt <= 3)
+    assume(lo <= octave <= hi)
+    assume(-3 <= alt2 <= 3)
+    letter2 = (letter + 1) % 7
+    octave2 = 3 if low2 else 4
+    s1 = spelling(letter, alt, octave)
+    s2 = spelling(letter2, alt2, octave2)
+    im, ex = kp.HumdrumPitchImporter(), kp.HumdrumPitchExporter()
+    p1 = im.import_pitch(s1)
+    p2 = im.import_pitch(s2)
+    p1b = im.import_pitch(s1)
+    check(p1 == p1b, lambda: f'import_pitch({s1!r}) before and after import_pitch({s2!r}) on one importer differ: {p1} vs {p1b}')
+    check(p2.octave == octave2 and p1.octave == octave, 'octave after reuse of the importer')
+    o1 = ex.export_pitch(p1)
+    o2 = ex.export_pitch(p2)
+    o1b = ex.export_pitch(p1)
+    check(o1 == s1, lambda: f'export_pitch = {o1!r} for {s1!r}')
+    check(o2 == s2, lambda: f'one exporter used for {s1!r} then {s2!r}: second answer {o2!r}')
+    check(o1b == s1, lambda: f'one exporter used for {s1!r}, {s2!r}, {s1!r}: third answer {o1b!r}')
+    return True
+
+
 def _desc_a(letter, alt, octave):
     return {'spelling': spelling(letter, alt, octave)}
 
 
 OBLIGATIONS = [
+    Ob(id='C16.c', fn=ob_c, title='histories: one importer / exporter reused across different pitches',
+       shard_of=lambda letter, alt, octave, alt2, low2: letter + 7 * (alt + 3),
+       shards={'quick': 16, 'thorough': 16}, budget_s={'quick': 170, 'thorough': 1200},
+       witnesses=[{'letter': 0, 'alt': 1, 'octave': 4, 'alt2': 0, 'low2': False}], min_confirmed=500,
+       symbolic='first pitch (letter, alteration, octave), second pitch alteration and register', enumerated='-',
+       bounds={'quick': 'first pitch over the whole C16.a grid x second pitch = next letter x alterations -3..3 x octaves {3,4}', 'thorough': 'C16.a thorough grid'}),
     Ob(id='C16.a', fn=ob_a, title='import -> export -> export on every spelling',
        shard_of=lambda letter, alt, octave: letter + 7 * (alt + 3),
        shards={'quick': 8, 'thorough': 14},
